@@ -590,7 +590,14 @@ impl LinkCc {
                     4 => 1e30,
                     _ => rates[k] as f64 + g.rng.range(0, 999) as f64 / 7.0,
                 };
-                let t = format!("{}:{}:{}:{}:{}", ids[k], rtt.to_bits(), bytes[k], naks[k], bps.to_bits());
+                // a link that is re-registering (tear-down -> REG3) stays in the list, not connected
+                let t = if g.rng.chance(1, 6) {
+                    format!("{}:{}:{}:{}:{}:0", ids[k], rtt.to_bits(), bytes[k], naks[k], bps.to_bits())
+                } else if g.rng.chance(1, 4) {
+                    format!("{}:{}:{}:{}:{}:1", ids[k], rtt.to_bits(), bytes[k], naks[k], bps.to_bits())
+                } else {
+                    format!("{}:{}:{}:{}:{}", ids[k], rtt.to_bits(), bytes[k], naks[k], bps.to_bits())
+                };
                 toks.push(t.clone());
                 if g.rng.chance(1, 30) {
                     toks.push(t); // the same connection id twice in one call
@@ -601,17 +608,25 @@ impl LinkCc {
     }
 }
 
-fn parse_conn(t: &str) -> Option<(u64, f64, u64, i32, f64)> {
+/// `id:rttbits:bytes:nak:bpsbits[:connected]` — the optional last field is the link's `connected`
+/// flag (default 1): a link that is re-registering stays in the connection list under the same id.
+fn parse_conn(t: &str) -> Option<(u64, f64, u64, i32, f64, bool)> {
     let v: Vec<&str> = t.split(':').collect();
-    if v.len() != 5 {
+    if v.len() != 5 && v.len() != 6 {
         return None;
     }
+    let connected = match v.get(5) {
+        None | Some(&"1") => true,
+        Some(&"0") => false,
+        _ => return None,
+    };
     Some((
         v[0].parse().ok()?,
         f64::from_bits(v[1].parse().ok()?),
         v[2].parse().ok()?,
         v[3].parse().ok()?,
         f64::from_bits(v[4].parse().ok()?),
+        connected,
     ))
 }
 
@@ -700,8 +715,12 @@ impl Component for LinkCc {
                     return "bad-op".into();
                 };
                 let mut links = create_test_connections_sync(cs.len());
-                for (c, (id, rtt, bytes, nak, bps)) in links.iter_mut().zip(cs.iter()) {
+                for (c, (id, rtt, bytes, nak, bps, connected)) in links.iter_mut().zip(cs.iter()) {
                     c.conn_id = *id;
+                    c.connected = *connected;
+                    if !*connected {
+                        mon.count("tick_all-disconnected-link");
+                    }
                     c.rtt.kalman_rtt.reset();
                     c.rtt.kalman_rtt.update(*rtt);
                     c.bitrate.bytes_sent_total = *bytes;
@@ -716,7 +735,7 @@ impl Component for LinkCc {
                 // (every intermediate step is observable there) and the shadow's final snapshot must be
                 // what `tick_all` returned.
                 let mut next: BTreeMap<u64, (LinkCongestionState, LinkMon, bool)> = BTreeMap::new();
-                for (i, (id, _rtt, bytes, nak, bps)) in cs.iter().enumerate() {
+                for (i, (id, _rtt, bytes, nak, bps, _connected)) in cs.iter().enumerate() {
                     let smooth = links[i].get_smooth_rtt_ms();
                     let obs = bps.max(0.0) as u64;
                     if next.contains_key(id) {
